@@ -1531,6 +1531,8 @@ func anBadPiece(r *Rng) anPiece {
 	return anPiece{Src: Pick(r, anBadEscapes), Val: []byte(string(rune(0xFFFD))), Bad: true}
 }
 
+func init() { anFaults = append(anFaults, anFaults2...) }
+
 var anFaults = []anFault{
 	{"dup-name", func(g *anGen) ([]anDecl, bool) {
 		names, owner := g.declaredNames()
@@ -1679,14 +1681,43 @@ var anFaults = []anFault{
 		}
 		return []anDecl{owner[a]}, true
 	}},
-	{"ambiguous-alias", func(g *anGen) ([]anDecl, bool) {
+	{"ambiguous-alias-x3", func(g *anGen) ([]anDecl, bool) {
+		// a second AND a third token with the literal of an alias the parser section uses (an odd number of
+		// definitions must still be ambiguous)
+		b1, ok := injAmbiguousAlias(g)
+		if !ok {
+			return nil, false
+		}
+		_, ok = injAmbiguousAliasSame(g)
+		return b1, ok
+	}},
+	{"ambiguous-alias", func(g *anGen) ([]anDecl, bool) { return injAmbiguousAlias(g) }},
+}
+
+// the literal chosen by the last injAmbiguousAlias call (so that a third definition can reuse it)
+var lastAmbiguousLit string
+
+func injAmbiguousAliasSame(g *anGen) ([]anDecl, bool) { return injAmbiguousAliasLit(g, lastAmbiguousLit) }
+
+func injAmbiguousAlias(g *anGen) ([]anDecl, bool) { return injAmbiguousAliasLit(g, "") }
+
+func injAmbiguousAliasLit(g *anGen, want string) ([]anDecl, bool) {
+	{
 		// a second token with the literal of an alias the parser section uses
 		as, owner := g.atoms(func(a *anAtom) bool { return a.Kind == 'A' })
 		if len(as) == 0 {
 			return nil, false
 		}
 		a := Pick(g.r, as)
+		if want != "" {
+			for _, b := range as {
+				if string(piecesVal(b.Lit)) == want {
+					a = b
+				}
+			}
+		}
 		lit := string(piecesVal(a.Lit))
+		lastAmbiguousLit = lit
 		var blame []anDecl
 		for _, b := range as {
 			if string(piecesVal(b.Lit)) == lit {
@@ -1717,7 +1748,10 @@ var anFaults = []anFault{
 		}
 		g.tokens = append(g.tokens, t)
 		return blame, true
-	}},
+	}
+}
+
+var anFaults2 = []anFault{
 	{"second-start", func(g *anGen) ([]anDecl, bool) {
 		if len(g.rules) == 0 {
 			return nil, false
